@@ -622,6 +622,11 @@ impl RecvCase {
                             }
                         }
                     }
+                    if f.condition == Condition::PositiveLimitReached && self.cfg.mode == TransmissionMode::Unacknowledged {
+                        // C18: nothing is acknowledged in unacknowledged mode, so a missing ACK of the
+                        // closure Finished PDU is no fault and cannot change the outcome reported
+                        self.bad(out, viol, "C18", "closure_no_ack_fault", format!("{} declared by an unacknowledged receiver (no ACK is ever due)", ind_repr(i)));
+                    }
                     if self.truth.success_reported && !self.truth.untruthful && (f.condition == Condition::FileChecksumFailure || f.condition == Condition::FilesizeError) {
                         self.bad(out, viol, "C04", "integrity_fault_after_success", format!("{} after a successful delivery was reported", ind_repr(i)));
                     }
